@@ -56,6 +56,17 @@ func CheckProperty(t *testing.T, prop string, b kit.Budget, gen func(*rapid.T) *
 		if w.HasMutations() {
 			classes = append(classes, "api-objects-changed-between-cycles")
 		}
+		staleEvict := false
+		for _, rec := range v.History.Cycles {
+			for _, c := range rec.Calls {
+				if c.Kind == "evict" && c.Action == "stalegangeviction" {
+					staleEvict = true
+				}
+			}
+		}
+		if staleEvict {
+			classes = append(classes, "stale-gang-eviction")
+		}
 		for _, rec := range v.History.Cycles {
 			if rec.NotCaughtUp {
 				classes = append(classes, "inconclusive:informers-never-matched-store:"+rec.NotCaughtUpWhy)
